@@ -216,6 +216,12 @@ func SegOf(t *rapid.T, n int, sofar int, kinds []string) Seg {
 			max = 1
 		}
 		s.Dist = rapid.IntRange(1, max).Draw(t, "dist")
+		// repeats whose length leaves 0..3 bytes after whole maximum-length
+		// matches (273): the encoder has to finish with a match of the minimum
+		// length or with literals coded against the match byte
+		if n > 300 && rapid.IntRange(0, 2).Draw(t, "len273") == 0 {
+			s.Len = n/273*273 + rapid.IntRange(0, 3).Draw(t, "rem273")
+		}
 	}
 	return s
 }
